@@ -89,9 +89,9 @@ func genBody(r *vh.Rand, text bool) []byte {
 var uriPool = []string{"/", "/a", "/a/b/c", "/a?x=1&y=2", "/p%20q", "/a%2Fb?z=%26", "/buy/?rt=0&station_to=7", "/~u/index.html", "/a;p=1", "/%D0%B6", "/a/../b", "/a//b", "/?"}
 var methodPool = []string{"GET", "POST", "PUT", "DELETE", "PATCH", "HEAD", "OPTIONS", "FOO", "get"}
 
-// genCase: mode 0 = requests back to back; 1 = 1.3-1.6 s between the requests of an instance; 2 = a SHORT configured dial
-// timeout (250 / 300 ms) and 500-650 ms between the requests, so that every instance outlives the dial timeout (round 7:
-// the timeout bounds the dial, an established connection / tunnel must survive it)
+// genCase: mode 0 = requests back to back; 1 = 1.3-1.6 s between the requests of an instance; 2 = the same pauses with the
+// configured dial timeout of the documented example (1 s), so that every instance outlives its dial timeout (round 7: the
+// timeout bounds the dial, an established connection / tunnel must survive it)
 func genCase(r *vh.Rand, mode int) string {
 	paused := mode != 0
 	format := r.Pick([]string{"uri", "uripost", "jsonline", "raw", "uripost", "jsonarr"})
@@ -100,6 +100,9 @@ func genCase(r *vh.Rand, mode int) string {
 	inst := r.Range(1, 4)
 	if paused { // an instance idling between its requests must still keep its one connection
 		ka, inst = true, r.Range(1, 2)
+		if mode == 2 { // mostly ONE instance: it then shoots every request of the file, each 1.3-1.6 s after the other
+			inst = r.PickInt([]int{1, 1, 1, 2})
+		}
 	}
 	tgt := "ip"
 	if r.Chance(1, 3) {
@@ -224,11 +227,12 @@ func genCase(r *vh.Rand, mode int) string {
 	if !strings.HasSuffix(opts, "2") && r.Chance(1, 3) {
 		addOpt(r.Pick([]string{"k", "k", "K"}))
 	}
-	// dial.timeout: short in mode 2; otherwise sometimes the documented example (1s) or a short one
+	// dial.timeout: in mode 2 the 1 s of the documented example configuration (docs/eng/http-generator.md), outlived by every
+	// instance; otherwise sometimes 1 s / 2 s.  Nothing shorter: under load a loop-back dial may take a few hundred ms.
 	if mode == 2 {
-		addOpt(fmt.Sprintf("T%d", r.PickInt([]int{250, 300})))
+		addOpt("T1000")
 	} else if r.Chance(1, 6) {
-		addOpt(fmt.Sprintf("T%d", r.PickInt([]int{300, 1000, 1000})))
+		addOpt(fmt.Sprintf("T%d", r.PickInt([]int{1000, 2000})))
 	}
 	status, size := r.PickInt([]int{200, 200, 200, 204, 301, 404, 500}), r.PickInt([]int{0, 2, 2, 1000, 70000, 300000, 1200000})
 	if status == 301 && size > 2048 && strings.Contains("."+opts+".", ".r.") {
@@ -252,7 +256,7 @@ func genCase(r *vh.Rand, mode int) string {
 	if mode == 1 {
 		pause = r.PickInt([]int{1300, 1300, 1600})
 	} else if mode == 2 {
-		pause = r.PickInt([]int{500, 650})
+		pause = r.PickInt([]int{1300, 1600})
 	}
 	kaf := vh.B(ka)
 	if opts != "" {
@@ -295,7 +299,7 @@ func gen(r *vh.Rand, tier string) []string {
 		mode := 0
 		if i%100 == 50 { // 1% of the cases pause 1.3-1.6 s between the requests
 			mode = 1
-		} else if i%33 == 16 { // 3%: short dial timeout, outlived by every instance
+		} else if i%33 == 16 { // 3%: dial timeout 1 s, outlived by every instance
 			mode = 2
 		}
 		out = append(out, genCase(r, mode))
